@@ -197,6 +197,22 @@ func scripts(alpha []letter, maxLen int) [][]letter {
 	return out
 }
 
+// reduced says whether a script is left at the canonical schedule for the "lite" API
+// configurations (the NtC twins of the chain-sync calls, whose client code is the NtN one, and
+// the server-role / two-call configurations, whose executions are 2-4 times larger): among
+// the scripts of the longest perturbed length only those made of messages alone are perturbed.
+func reduced(sc []letter, devLen int) bool {
+	if len(sc) < devLen || len(sc) == 0 {
+		return false
+	}
+	for _, l := range sc {
+		if l.kind != kMsg {
+			return true
+		}
+	}
+	return false
+}
+
 func TestC15(t *testing.T) {
 	e1lib.Main(t, "C15", func(thorough bool) []e1lib.Scenario {
 		var scs []e1lib.Scenario
@@ -214,7 +230,7 @@ func TestC15(t *testing.T) {
 				// budgets are wall-clock caps per scenario; they are generous because the machine is
 				// shared (a bound-1 scenario costs 3-6 s of CPU)
 				s.MinB, s.MaxB, s.Budget = 0, 0, 3*time.Minute
-				if len(sc) <= devLen {
+				if len(sc) <= devLen && !(sp.lite && reduced(sc, devLen)) {
 					s.MaxB, s.MinB = 1, 1
 					s.Budget = 15 * time.Minute
 				}
